@@ -225,7 +225,7 @@ Proof.
       destruct (N.leb_spec (sector + need_of version r) sector); [lia|].
       destruct (IH f (sector + need_of version r) st1 Ht J1 Hskip ltac:(lia) Hf') as (st' & Sc' & J' & Sem').
       exists st'. split; [exact Sc'|]. split; [exact J'|]. cbn [fold_left]. rewrite <- Sem. exact Sem'.
-    + rewrite (scan_step_skips_a_complete_marker_run c version total sector n st jl _ Hrw Htok Hit ltac:(lia) Hmax).
+    + rewrite (scan_step_skips_a_complete_marker_run c version total sector n st jl _ (or_introl Hrw) Htok Hit ltac:(lia) Hmax).
       cbn [bind]. destruct (N.leb_spec (sector + n) sector); [lia|].
       assert (J1 : SJ total (sector + n) st) by (destruct J; constructor; try assumption; lia).
       exact (IH f (sector + n) st Ht J1 Hskip ltac:(lia) Hf').
